@@ -41,8 +41,10 @@ func hDateCell(tag string) hDate {
 	return dt
 }
 
-func (d hDate) in(z *time.Location) time.Time { return time.Date(d.y, time.Month(d.m), d.d, 0, 0, 0, 0, z) }
-func (d hDate) key() int                      { return d.y*10000 + d.m*100 + d.d }
+func (d hDate) in(z *time.Location) time.Time {
+	return time.Date(d.y, time.Month(d.m), d.d, 0, 0, 0, 0, z)
+}
+func (d hDate) key() int { return d.y*10000 + d.m*100 + d.d }
 
 // calendar.txt with C rows and calendar_dates.txt with D rows over two
 // symbolic service ids (each row picks one), symbolic dates and exception
